@@ -5,35 +5,39 @@ from vlib import core
 META = {
     "level": "proof",
     "text": ("Coq theorems over ALL byte lists / code-point lists: hex, Base64 (4 option combinations) and UTF-8 round trips, output shapes and "
-             "length formulas, 'the strict decoders accept exactly the encoder's output', SHA-2 and SHA-3 output lengths and padding (whole blocks, "
-             "0x80 + bit length / 0x06..0x80), HMAC = RFC 2104 with a one-block key, ChaCha20-Poly1305 decrypt-after-encrypt = plaintext for every "
-             "key/nonce/aad/plaintext. The primitives themselves (SHA-256/384/512/512-256, SHA3-224/256/384/512, HMAC, ChaCha20, Poly1305) are "
-             "reference definitions over N words (FIPS 180-4, FIPS 202, RFC 2104, RFC 8439) validated inside Coq (C37/Vectors.v) by NIST / RFC 4231 / RFC 8439 / "
-             "RFC 4648 test vectors: the vectors are tests, not theorems. The model is tied to the code by running hex_bytes/2, chars_base64/3, "
-             "chars_utf8bytes/2, crypto_data_hash/3 and crypto_data_encrypt/6 on generated inputs (block boundaries, non-ASCII, both encodings, HMAC "
-             "keys shorter/equal/longer than the block) and comparing the output bytes with the model inside Coq (vm_compute)."),
+             "length formulas, 'the strict decoders accept exactly the encoder's output', output lengths of all 11 hash algorithms, SHA-2 / SHA-3 / "
+             "RIPEMD-160 padding (whole blocks, 0x80 + bit length / 0x06..0x80), HMAC = RFC 2104 with a one-block key, ChaCha20-Poly1305 "
+             "decrypt-after-encrypt = plaintext for every key/nonce/aad/plaintext. The primitives themselves (SHA-256/384/512/512-256, SHA3-224/256/"
+             "384/512, BLAKE2s-256, BLAKE2b-512, RIPEMD-160, HMAC, ChaCha20, Poly1305) are reference definitions over N words (FIPS 180-4, FIPS 202, "
+             "RFC 7693, RFC 2104, RFC 8439) validated inside Coq (C37/Vectors.v) by the published test vectors: the vectors are tests, not theorems. "
+             "The model is tied to the code by running hex_bytes/2, chars_base64/3, chars_utf8bytes/2, crypto_data_hash/3 (every algorithm) and "
+             "crypto_data_encrypt/6 on generated inputs (block boundaries, non-ASCII, both encodings, HMAC keys shorter/equal/longer than the block) "
+             "and comparing the output bytes with the model inside Coq (vm_compute)."),
     "note": ("Trusted: Coq kernel + vm_compute; harness vrun; the Python generator; hex and UTF-8 models mirror the Prolog of crypto.pl / "
-             "charsio.pl (utf8_decode mirrors the lenient decode_utf8//1 including U+FFFD replacement; continuation//3 is unrolled), Base64, "
-             "SHA-2, SHA-3, HMAC, ChaCha20-Poly1305 are reference definitions, not mirrors of the base64/ring/sha3 crates. NOT covered by the Coq "
-             "model: blake2s256, blake2b512, ripemd160 (compared with Python hashlib only -- an oracle outside Coq -- plus the output shape); "
-             "crypto_data_decrypt is exercised only on the implementation (decrypts its own output; tampered tag/key/aad rejected) while the model "
-             "side is the theorem aead_encrypt_decrypt; crypto_data_hkdf, crypto_password_hash, ed25519/curve25519 are outside the property. "
+             "charsio.pl (utf8_decode mirrors the lenient decode_utf8//1 including U+FFFD replacement; continuation//3 is unrolled); Base64, the "
+             "hashes, HMAC and ChaCha20-Poly1305 are reference definitions transcribed from the standards, not mirrors of the base64/ring/sha3/"
+             "blake2/ripemd crates; their correctness as transcriptions rests on the test vectors (and, redundantly, on Python hashlib, against which "
+             "sha3_*/blake2*/ripemd160 outputs are also compared). crypto_data_decrypt is exercised only on the implementation (decrypts its own "
+             "output; tampered tag/key/aad rejected) while the model side is the theorem aead_encrypt_decrypt. Not covered: crypto_data_hkdf, "
+             "crypto_password_hash, ed25519/curve25519 (outside the property text); integer-list input of encoding(octet) (deprecated form). "
              "No axioms (all theorems closed under the global context)."),
     "technique": ("Coq proof (hex_roundtrip, hex_decode_encode, base64_roundtrip, base64_decode_canonical, base64_length, utf8bytes_roundtrip, "
-                  "sha_output_length, sha_padding_block_multiple, sha3_padding_block_multiple, hmac_definition, aead_encrypt_decrypt) over an "
-                  "impl-mirror (hex, UTF-8) / reference (Base64, SHA-2, SHA-3, HMAC, ChaCha20-Poly1305) model + differential correspondence evaluated in Coq"),
+                  "sha_output_length, sha_padding_block_multiple, sha3_padding_block_multiple, other_hash_output_length, hmac_definition, "
+                  "aead_encrypt_decrypt) over an impl-mirror (hex, UTF-8) / reference (Base64, SHA-2, SHA-3, BLAKE2, RIPEMD-160, HMAC, "
+                  "ChaCha20-Poly1305) model + differential correspondence evaluated in Coq"),
     "design_ref": "DESIGN.md section 8, C37",
     "coq_targets": ["C37/Props.vo", "C37/Vectors.vo"],
     "coq_dirs": ["C37"],
     "props": "C37/Props.v",
     "trusted_base": ["Coq 8.16.1 kernel, vm_compute (no native_compute)", "harness/vrun + tools/vlib (correspondence)",
-                     "FIPS 180-4 / FIPS 202 / RFC 2104 / RFC 4648 / RFC 8439 transcribed as Gallina reference definitions (validated by published test vectors as Examples)",
-                     "Python hashlib as the only oracle for blake2s256/blake2b512/ripemd160 (not covered by the Coq model)"],
+                     "FIPS 180-4 / FIPS 202 / RFC 7693 / RIPEMD-160 / RFC 2104 / RFC 4648 / RFC 8439 transcribed as Gallina reference definitions "
+                     "(validated by published test vectors as Examples in C37/Vectors.v)",
+                     "Python hashlib as a second, non-Coq oracle for sha3_*/blake2*/ripemd160"],
     "assumptions": ["inputs are limited to 300 bytes/characters (thorough: 700)",
                     "bytes are integers 0..255 and characters are Unicode scalar values (the model's hypotheses Forall (<256) / valid_cp)"],
 }
 
-IMPORTS = "From V Require Import C37.Model C37.Keccak C37.Chacha."
+IMPORTS = "From V Require Import C37.Model C37.Keccak C37.Chacha C37.MoreHashes."
 PRELUDE = ":- use_module(library(crypto)).\n:- use_module(library(charsio)).\n:- use_module(library(lists)).\n"
 BOUNDARY = [0, 1, 2, 3, 4, 5, 6, 7, 8, 31, 32, 33, 54, 55, 56, 57, 62, 63, 64, 65, 66, 110, 111, 112, 113, 118, 119, 120, 121,
             126, 127, 128, 129, 135, 136, 137, 183, 191, 192, 193, 239, 240, 247, 248, 255, 256, 257, 299, 300]
@@ -41,8 +45,9 @@ CP_BOUNDARY = [0, 1, 0x7F, 0x80, 0xFF, 0x100, 0x7FF, 0x800, 0xFFF, 0x1000, 0xD7F
                0x10000, 0x1F600, 0x3FFFF, 0x40000, 0xFFFFF, 0x100000, 0x10FFFF]
 ALGS = {"sha256": ("SHA256", 64, 32), "sha384": ("SHA384", 128, 48), "sha512": ("SHA512", 128, 64), "sha512_256": ("SHA512_256", 128, 32)}
 SHA3 = {"sha3_224": 28, "sha3_256": 32, "sha3_384": 48, "sha3_512": 64}
-UNMODELLED = {"blake2s256": 32, "blake2b512": 64, "ripemd160": 20}
-HASHLIB = dict(SHA3, **UNMODELLED)     # algorithms additionally compared with Python hashlib (SHA-3 is ALSO compared with the Coq model)
+XALG = {"blake2s256": ("BLAKE2S256", 32, 64), "blake2b512": ("BLAKE2B512", 64, 128), "ripemd160": ("RIPEMD160", 20, 64)}   # coq name, digest, block
+UNMODELLED = {}
+HASHLIB = dict(SHA3, **{a: v[1] for a, v in XALG.items()})   # algorithms ALSO compared with Python hashlib (an oracle outside Coq)
 
 
 # ------------------------------------------------------------------ text helpers
@@ -100,10 +105,15 @@ def outcome(ans, var):
         v = ints_of(a["b"].get(var))
         if v is not None:
             return ("ok", v)
+        if isinstance(a["b"].get(var), dict) and "a" in a["b"][var]:
+            return ("atom", a["b"][var]["a"])
         return ("other", json.dumps(a)[:300])
     f = core.error_formal(a) if isinstance(a, dict) else None
     if f is not None:
-        return ("err", core.term_text(f))
+        try:
+            return ("err", core.term_text(f))
+        except RecursionError:
+            return ("err", "(error term too deep to print)")
     return ("other", json.dumps(ans)[:300])
 
 
@@ -247,10 +257,11 @@ def build_cases(ctx):
                             "space": 32}[m]
         use_str = rng.random() < 0.5
         src = ("_Hs = %s" % pl_string(codes)) if use_str else ("maplist(char_code, _Hs, %s)" % pl_ints(codes))
-        q = "%s, hex_bytes(_Hs, Bs)." % src
+        # the culprit of domain_error(hex_encoding, Hs) is the whole text: caught inside Prolog (too deep for the answer channel)
+        q = "%s, catch(hex_bytes(_Hs, Bs), error(domain_error(hex_encoding, _), _), Bs = hex_encoding_error)." % src
         C.add("hex_dec", tuple(codes), q, "Bs",
               lambda o, codes=codes: "check_hex_dec %s %s" % (coq_list(codes), coq_opt(o[1] if o[0] == "ok" else None))
-              if o[0] == "ok" or (o[0] == "err" and o[1].startswith("'domain_error'('hex_encoding'")) else None, len(codes), valid=hex_valid(codes))
+              if o[0] == "ok" or o == ("atom", "hex_encoding_error") else None, len(codes), valid=hex_valid(codes))
 
     # ---- chars_base64/3, both directions, the four option combinations
     for pad in (True, False):
@@ -417,32 +428,38 @@ def build_hash_cases(ctx, C):
 
 
 def build_sha3_cases(ctx, C):
+    """sha3_* (check_hash3) and blake2s256 / blake2b512 / ripemd160 (check_hashx)."""
     rng = ctx.rng
     S = lambda q, t: ctx.scale(q, t)
+    specs = []
     for alg, dlen in SHA3.items():
         rate = 200 - 2 * dlen
-        ls = [0, 1, rate - 2, rate - 1, rate, rate + 1] + [rng.randrange(2, 301) for _ in range(S(1, 40))]
+        specs.append((alg, "check_hash3 %d" % dlen, [0, 1, rate - 2, rate - 1, rate, rate + 1], rate))
+    for alg, (cname, dlen, B) in XALG.items():
+        specs.append((alg, "check_hashx %s" % cname, [0, 1, 55, 56, B - 1, B, B + 1, 2 * B - 1, 2 * B, 2 * B + 1], B))
+    for alg, fn, ls, B in specs:
+        ls = ls + [rng.randrange(2, 301) for _ in range(S(1, 40))]
         if ctx.thorough:
-            ls += [2 * rate - 1, 2 * rate, 2 * rate + 1, 3 * rate - 1, 3 * rate]
+            ls += [2 * B - 1, 2 * B, 2 * B + 1, 3 * B - 1, 3 * B, 3 * B + 1, 4 * B, 5 * B]
         for n in ls:
             bs = gen_bytes(rng, n)
             use_str = rng.random() < 0.5
             src = ("_Cs = %s" % pl_string(bs)) if use_str else ("maplist(char_code, _Cs, %s)" % pl_ints(bs))
             q = "%s, crypto_data_hash(_Cs, _H, [algorithm(%s),encoding(octet)]), maplist(char_code, _H, Hc)." % (src, alg)
             C.add("hash3", (alg, "octet", tuple(bs)), q, "Hc",
-                  lambda o, bs=bs, dlen=dlen: "check_hash3 %d true %s %s" % (dlen, coq_list(bs), coq_opt(o[1] if o[0] == "ok" else None))
+                  lambda o, bs=bs, fn=fn: "%s true %s %s" % (fn, coq_list(bs), coq_opt(o[1] if o[0] == "ok" else None))
                   if o[0] == "ok" else None, len(bs))
         for _ in range(S(2, 30)):
             cps = [gen_cp(rng) for _ in range(rng.choice([1, 5, 20, 40]))]
             enc = rng.choice(["utf8", None])
             q = "_Cs = %s, crypto_data_hash(_Cs, _H, [algorithm(%s)%s]), maplist(char_code, _H, Hc)." % (pl_string(cps), alg, ",encoding(utf8)" if enc else "")
             C.add("hash3", (alg, enc, tuple(cps)), q, "Hc",
-                  lambda o, cps=cps, dlen=dlen: "check_hash3 %d false %s %s" % (dlen, coq_list(cps), coq_opt(o[1] if o[0] == "ok" else None))
+                  lambda o, cps=cps, fn=fn: "%s false %s %s" % (fn, coq_list(cps), coq_opt(o[1] if o[0] == "ok" else None))
                   if o[0] == "ok" else None, len(cps))
 
 
 def build_side_cases(ctx):
-    """Cases decided without the Coq model: algorithms that are not modelled (hashlib oracle) and encrypt/decrypt round trips."""
+    """Second-oracle cases (Python hashlib for sha3/blake2/ripemd160) and encrypt/decrypt round trips on the implementation."""
     rng = ctx.rng
     S = lambda q, t: ctx.scale(q, t)
     out = []
@@ -524,7 +541,10 @@ def case_cost(c):
         blocks = len(codes) * (1 if enc == "octet" else 2) // B + 1 + (0 if key is None else 3 + len(key) // B)
         return 0.3 + blocks * (1.0 if B == 64 else 1.6)
     if c["kind"] == "hash3":
-        return 0.3 + 3.0 * (len(c["ident"][2]) // (200 - 2 * SHA3[c["ident"][0]]) + 1)
+        alg = c["ident"][0]
+        if alg in SHA3:
+            return 0.3 + 3.0 * (len(c["ident"][2]) // (200 - 2 * SHA3[alg]) + 1)
+        return 0.3 + 1.2 * (len(c["ident"][2]) // XALG[alg][2] + 1)
     return 0.2 + c["size"] / 300.0
 
 
@@ -612,7 +632,7 @@ def run(ctx):
             else:
                 side_n["hashlib"] += 1
                 if o[1] != s["expect"]:
-                    failures.append({"key": "hash:%s:differs-from-hashlib" % s["alg"], "what": "digest differs from Python hashlib (oracle outside the Coq model)",
+                    failures.append({"key": "hash:%s:differs-from-hashlib" % s["alg"], "what": "digest differs from Python hashlib (second oracle, outside Coq)",
                                      "input": s["query"][:2000], "impl": "".join(map(chr, o[1])), "spec": "".join(map(chr, s["expect"])), "property_fails": True})
         else:
             side_n["encdec"] += 1
@@ -668,12 +688,12 @@ def run(ctx):
 
     t_coq = time.time() - t0 - t_impl
     dist["side_cases"] = side_n
-    dist["not_covered_by_model"] = sorted(UNMODELLED)
+    dist["not_covered_by_model"] = ["crypto_data_decrypt (implementation round trip only; model side is theorem aead_encrypt_decrypt)"]
 
     nontrivial = sum(1 for c in cases if c["valid"] and c["size"] > 0)
     samples = []
     for k in ("hex_enc", "hex_dec", "b64_enc", "b64_dec", "utf8_enc", "utf8_dec", "hash", "hash3"):
-        cs = [c for c in cases if c["kind"] == k and 0 < len(c["query"]) < 400]
+        cs = [c for c in cases if c["kind"] == k and 1 <= c["size"] <= 8 and len(c["query"]) < 500]
         for c in cs[:2 if k == "hash" else 1]:
             samples.append({"query": c["query"], "impl": json.dumps(c["outcome"])[:300]})
     for s, a in list(zip(side, side_answers))[:1]:
@@ -686,11 +706,12 @@ def run(ctx):
                  "classes; inputs passed both as char lists and as string literals; hex_bytes/2, chars_base64/3 (4 option combinations, defaults and "
                  "both option orders), chars_utf8bytes/2 in both directions, crypto_data_hash/3 for sha256/384/512/512_256 x encoding(octet|utf8|default) "
                  "x hmac keys of length 0,1,20,digest,B-1,B,B+1,2B,2B+3, sha3_224/256/384/512 at lengths 0,1,rate-2..rate+1 and random, "
+                 "blake2s256/blake2b512/ripemd160 at 0,1,55,56,B-1,B,B+1,2B-1,2B,2B+1 and random, "
                  "crypto_data_encrypt/6 (ciphertext and tag) at lengths 0,1,15..17,63..65,127..129,255,256,300 and random with/without aad; decoders also get malformed text (odd length, bad characters, wrong padding, "
                  "non-zero trailing bits, other charset, truncated/overlong/surrogate UTF-8). Every case's output bytes are compared with the model in Coq. "
                  "distinct_nontrivial = distinct (operation, options, input) cases with a NON-EMPTY WELL-FORMED input whose result the property fixes "
-                 "(malformed-input cases and empty inputs are run but not counted). Not model-backed (counted in evaluations, listed in distribution.side_cases): "
-                 "blake2s256/blake2b512/ripemd160 (and, redundantly, sha3_*) against Python hashlib; crypto_data_decrypt of the implementation's own ciphertext "
+                 "(malformed-input cases and empty inputs are run but not counted). Additional checks without the model (counted in evaluations, listed in distribution.side_cases): "
+                 "sha3_*/blake2*/ripemd160 also against Python hashlib; crypto_data_decrypt of the implementation's own ciphertext "
                  "(plaintext returned, tampered tag/key/aad rejected)."),
         "samples": samples,
         "distribution": dist,
@@ -714,7 +735,9 @@ def spec_expr(c):
         return "utf8_encode %s" % coq_list(ident)
     if k == "utf8_dec":
         return "utf8_decode %s" % coq_list(ident)
-    if k == "hash3":
+    if k == "hash3" and ident[0] in SHA3:
         return "data_hash3 %d %s %s" % (SHA3[ident[0]], coq_bool(ident[1] == "octet"), coq_list(ident[2]))
+    if k == "hash3":
+        return "data_hashx %s %s %s" % (XALG[ident[0]][0], coq_bool(ident[1] == "octet"), coq_list(ident[2]))
     alg, enc, key, codes = ident
     return "data_hash %s %s %s %s" % (ALGS[alg][0], coq_bool(enc == "octet"), coq_opt(list(key) if key is not None else None), coq_list(codes))
